@@ -609,6 +609,23 @@ func crashViolation(p *propCfg, ci *crashInfo) violation {
 	if fp, ok := raceFingerprint(ci.stderr); ok {
 		return violation{Oracle: "race", Fingerprint: fp, Message: "the Go race detector reported a data race:\n" + tail}
 	}
+	if i := strings.Index(ci.stderr, "SIM-DEADLOCK:"); i >= 0 {
+		line := ci.stderr[i:]
+		if j := strings.Index(line, "\n"); j >= 0 {
+			line = line[:j]
+		}
+		kinds := map[string]bool{}
+		for _, m := range regexp.MustCompile(`\[task \d+: ([^\]]+)\]`).FindAllStringSubmatch(line, -1) {
+			kinds[m[1]] = true
+		}
+		var ks []string
+		for k := range kinds {
+			ks = append(ks, k)
+		}
+		sort.Strings(ks)
+		return violation{Oracle: "deadlock", Fingerprint: "deadlock@" + strings.Join(ks, "+"),
+			Message: "under this schedule every unfinished goroutine waits for another one (channels, wait groups and mutexes of the code under test are modelled by the scheduler):\n" + line}
+	}
 	if ci.reason == "timeout" {
 		return violation{Oracle: "no-termination", Fingerprint: "no-termination@watchdog", Message: "worker killed by the wall-clock watchdog while running this case\n" + tail}
 	}
